@@ -12,144 +12,11 @@
 (* The rules of Dice.tla are recomputed from the observed faces and every  *)
 (* observed field is compared.  Failures are collected, not fatal.         *)
 (***************************************************************************)
-EXTENDS Dice, Json, IOUtils
+EXTENDS DiceCheck, Json, IOUtils
 
 Trace == ndJsonDeserialize(IOEnv.TRACE)
 
 VARIABLES l, bad
-
-FacesOf(e) == [i \in 1..Len(e.rolls) |-> e.rolls[i].f]
-
-\* every Roll call of the term: right die, right mode, face in range, mode semantics
-RollOK(r, sides, mode) ==
-  /\ r.s = sides /\ r.m = mode
-  /\ r.f >= 1 /\ r.f <= sides
-  /\ (mode = -1 => r.f = 1)
-  /\ (mode = 1 => r.f = sides)
-
-AllRolls(e, sides) == \A i \in 1..Len(e.rolls) : RollOK(e.rolls[i], sides, e.mode)
-
-OwnSource(e) == (e.via = "vm" /\ e.mode = 0) => \A i \in 1..Len(e.rolls) : e.rolls[i].o /\ ~e.rolls[i].g
-
-Failed(e) == e.err \/ e.panic
-
-Tag(c, t) == IF c THEN {} ELSE {t}
-
-CheckCommon(e) ==
-  LET p == e.p IN
-  IF ~CommonLegal(p.times, p.sides, p.kind, p.cnt)
-  THEN IF e.via = "vm" THEN Tag(e.err /\ ~e.panic, "illegal-accepted") ELSE {}
-  ELSE IF Failed(e) THEN {"legal-rejected"}
-  ELSE LET c == Common(FacesOf(e), p.kind, p.cnt, p.mn, p.mx) IN
-       Tag(Len(e.rolls) = p.times /\ AllRolls(e, p.sides), "rolls")
-       \cup Tag(e.total = c.total, "total")
-       \cup Tag(e.via = "vm" => e.shown.has, "no-detail")
-       \cup Tag(e.shown.has => (e.shown.parsed /\ Asc(e.shown.kept) = Asc(c.kept) /\ Asc(e.shown.dropped) = Asc(c.dropped)), "shown")
-
-CheckFate(e) ==
-  IF Failed(e) THEN {"legal-rejected"}
-  ELSE Tag(Len(e.rolls) = 4 /\ AllRolls(e, 3), "rolls")
-       \cup Tag(e.total = Fate(FacesOf(e)), "total")
-       \cup Tag(e.shown.has => (e.shown.parsed /\ e.shown.sym = [i \in 1..Len(e.rolls) |-> e.rolls[i].f - 2]), "shown")
-
-CheckCoC(e) ==
-  LET p == e.p IN
-  IF ~CocLegal(p.n)
-  THEN IF e.via = "vm" THEN Tag(e.err /\ ~e.panic, "illegal-accepted") ELSE {}
-  ELSE IF Failed(e) THEN {"legal-rejected"}
-  ELSE LET fs == FacesOf(e)
-           rollsOK == /\ Len(e.rolls) = p.n + 1
-                      /\ RollOK(e.rolls[1], 100, e.mode)
-                      /\ \A i \in 2..Len(e.rolls) : RollOK(e.rolls[i], 10, e.mode)
-           tens == IF e.mode = 0 THEN Tail(fs) ELSE CocModeTens(p.n)
-       IN Tag(rollsOK, "rolls")
-          \cup (IF ~rollsOK THEN {} ELSE
-                Tag(e.total = CoC(fs[1], tens, p.bonus), "total")
-                \cup Tag(e.shown.has => (e.shown.parsed /\ e.shown.d100 = fs[1]
-                                         /\ e.shown.digits = [i \in 1..p.n |-> Digit(tens[i])]), "shown"))
-
-MarksOK(shown, dice, add, thr, isGE, isWod) ==
-  /\ Len(shown) = Len(dice)
-  /\ \A r \in 1..Len(dice) :
-       /\ Len(shown[r]) = Len(dice[r])
-       /\ \A i \in 1..Len(dice[r]) :
-            /\ shown[r][i].f = dice[r][i]
-            /\ shown[r][i].a = (add # 0 /\ dice[r][i] >= add)
-            /\ isWod => shown[r][i].s = (IF isGE THEN dice[r][i] >= thr ELSE dice[r][i] <= thr)
-
-\* the implementation hides the dice of big pools; that elision is allowed, nothing else is
-MayHide(pool, total) == pool >= 15 \/ total > 100
-
-CheckWoD(e) ==
-  LET p == e.p IN
-  IF ~WodLegal(p.pool, p.add, p.sides, p.thr)
-  THEN IF e.via = "vm" THEN Tag(e.err /\ ~e.panic, "illegal-accepted") ELSE {}
-  ELSE IF Failed(e) THEN {"legal-rejected"}
-  ELSE LET r == WoD(FacesOf(e), p.pool, p.add, p.thr, p.ge) IN
-       Tag(AllRolls(e, p.sides) /\ ~r.short /\ r.used = Len(e.rolls), "rolls")
-       \cup Tag(e.total = r.succ, "total")
-       \cup Tag(e.shown.has => (e.shown.parsed /\ e.shown.succ = r.succ /\ e.shown.tot = r.total /\ e.shown.nr = r.rounds), "shown-header")
-       \cup Tag((e.shown.has /\ e.shown.parsed) =>
-                  IF e.shown.hidden THEN MayHide(p.pool, r.total)
-                  ELSE MarksOK(e.shown.rounds, r.dice, p.add, p.thr, p.ge, TRUE), "shown")
-
-CheckDC(e) ==
-  LET p == e.p IN
-  IF ~DcLegal(p.pool, p.add, p.sides)
-  THEN IF e.via = "vm" THEN Tag(e.err /\ ~e.panic, "illegal-accepted") ELSE {}
-  ELSE IF Failed(e) THEN {"legal-rejected"}
-  ELSE LET r == DC(FacesOf(e), p.pool, p.add) IN
-       Tag(AllRolls(e, p.sides) /\ ~r.short /\ r.used = Len(e.rolls), "rolls")
-       \cup Tag(e.total = r.value, "total")
-       \cup Tag(e.shown.has => (e.shown.parsed /\ e.shown.succ = r.value /\ e.shown.tot = r.total /\ e.shown.nr = r.rounds), "shown-header")
-       \cup Tag((e.shown.has /\ e.shown.parsed) =>
-                  IF e.shown.hidden THEN MayHide(p.pool, r.total)
-                  ELSE MarksOK(e.shown.rounds, r.dice, p.add, 0, TRUE, FALSE), "shown")
-
-Illegal(e) ==
-  LET p == e.p IN
-  CASE e.fam = "common" -> ~CommonLegal(p.times, p.sides, p.kind, p.cnt)
-    [] e.fam = "fate"   -> FALSE
-    [] e.fam = "coc"    -> ~CocLegal(p.n)
-    [] e.fam = "wod"    -> ~WodLegal(p.pool, p.add, p.sides, p.thr)
-    [] e.fam = "dc"     -> ~DcLegal(p.pool, p.add, p.sides)
-
-Check(e) ==
-  IF Illegal(e)
-  THEN (CASE e.fam = "common" -> CheckCommon(e) [] e.fam = "coc" -> CheckCoC(e)
-          [] e.fam = "wod" -> CheckWoD(e) [] e.fam = "dc" -> CheckDC(e))
-  ELSE
-  (CASE e.fam = "common" -> CheckCommon(e)
-     [] e.fam = "fate"   -> CheckFate(e)
-     [] e.fam = "coc"    -> CheckCoC(e)
-     [] e.fam = "wod"    -> CheckWoD(e)
-     [] e.fam = "dc"     -> CheckDC(e))
-  \cup Tag(OwnSource(e), "foreign-source")                    \* C06: all randomness from the context's generator
-  \cup Tag(e.mode # 0 => ~e.rngMoved, "mode-consumed-randomness")  \* C15
-  \cup Tag(~e.short, "wanted-more-dice")
-  \* C15 on the real package: the same term evaluated in min- and max-mode brackets this outcome
-  \cup Tag(e.hasLo => e.lo <= e.total, "below-min-mode")
-  \cup Tag(e.hasHi => e.total <= e.hi, "above-max-mode")
-
-\* C15: an expression k0 + sum coef_i * term_i with coef_i >= 0 over XdY / Fate / CoC terms
-TermLo(pt) == CASE pt.fam = "common" -> CommonAllLow(pt.p.times, pt.p.kind, pt.p.cnt, pt.p.mn, pt.p.mx)
-                [] pt.fam = "fate"   -> -4
-                [] pt.fam = "coc"    -> 1
-TermHi(pt) == CASE pt.fam = "common" -> CommonAllHigh(pt.p.times, pt.p.sides, pt.p.kind, pt.p.cnt, pt.p.mn, pt.p.mx)
-                [] pt.fam = "fate"   -> 4
-                [] pt.fam = "coc"    -> 100
-
-CheckExpr(e) ==
-  IF e.err THEN {"legal-rejected"}
-  ELSE LET lo == e.konst + SumSeq([i \in 1..Len(e.parts) |-> e.parts[i].coef * TermLo(e.parts[i])])
-           hi == e.konst + SumSeq([i \in 1..Len(e.parts) |-> e.parts[i].coef * TermHi(e.parts[i])])
-       IN Tag(e.lo = lo, "min-mode-value")          \* bounds attained and equal to the closed forms
-          \cup Tag(e.hi = hi, "max-mode-value")
-          \cup Tag(\A i \in 1..Len(e.vals) : e.lo <= e.vals[i], "below-min-mode")
-          \cup Tag(\A i \in 1..Len(e.vals) : e.vals[i] <= e.hi, "above-max-mode")
-          \cup Tag(~e.loMoved /\ ~e.hiMoved /\ e.loRolls = 0 /\ e.hiRolls = 0, "mode-consumed-randomness")
-
-CheckAny(e) == IF e.ev = "expr" THEN CheckExpr(e) ELSE Check(e)
 
 Init == l = 1 /\ bad = <<>>
 
